@@ -265,6 +265,30 @@ theorem adapter_names_counterexample :
     ¬ (Named.valueNames (Named.defsG adapterWitness)).Nodup ∧ Named.checkStructural adapterWitness = false := by
   decide
 
+/-! ### known finding `inline:sibling-bodies-share-names`
+
+`_Inline.to_onnx` memoises its renaming per inner *name*; `Model/Naming.lean` does the same
+(`Ren.memoV` / `Ren.memoN`). An inlined model may use one name in two sibling bodies (both branches of an
+If define `tmp`, both hold a node `n`): valid ONNX, and all of them become `Inline_0__tmp` /
+`Inline_0__n`. `siblingWitness` is the name structure of the model `build` returns for
+`findings/C02-inline-sibling-names.json`: the full-strength statement "every value name and every
+non-empty node name is defined once in the whole model" is false of it. What is proved is unaffected:
+the scope still hands each of these names out once (`names_unique`) — it is the renaming that places one
+issued name at two definition sites; `checkStructural` rejects the model (run-time: reported as
+KNOWN-FINDING, key specific to duplicates that lie only in sibling bodies under `Inline_k__` names). -/
+def siblingWitness : Named.NGraph :=
+  .mk ["x", "c"] [] [
+    .mk "Inline_0__if0" ["c"] ["Inline_0_outputs_0"] [
+      .mk [] [] [.mk "Inline_0__n" ["x"] ["Inline_0__tmp"] []] ["Inline_0__tmp"],
+      .mk [] [] [.mk "Inline_0__n" ["x"] ["Inline_0__tmp"] []] ["Inline_0__tmp"]],
+    .mk "Introduce_0_id0" ["Inline_0_outputs_0"] ["y"] []] ["y"]
+
+theorem sibling_names_counterexample :
+    ¬ (Named.valueNames (Named.defsG siblingWitness)).Nodup ∧
+    ¬ (Named.nodeNames (Named.defsG siblingWitness)).Nodup ∧
+    Named.checkStructural siblingWitness = false := by
+  decide
+
 /-! ### non-vacuity -/
 
 def outcome {α} : Except Err α → Option Err
